@@ -158,6 +158,12 @@ class Program(object):
           raise AnalysisError('syntax error in %s: %s' % (rel, e))
         self.modules[rel] = m
         self.by_name[name] = m
+    if os.environ.get('SA_NO_NORMALIZE') != '1':
+      try:
+        from .normalize import normalize_attrs
+        normalize_attrs(dict((rel, m.tree) for rel, m in self.modules.items()))
+      except Exception:
+        pass
     for m in self.modules.values():
       self._index_module(m)
     for c in self.all_classes:
